@@ -940,8 +940,8 @@ func (m *Machine) evalValue(c *Config, v ssa.Value) (Value, []*Config) {
 	case *ssa.Slice:
 		return m.sliceOp(c, x), nil
 	case *ssa.MakeSlice:
-		ln := m.termOf(c, x.Len)
-		cp := m.termOf(c, x.Cap)
+		ln := BVConv(m.termOf(c, x.Len), isSigned(x.Len.Type()), 64)
+		cp := BVConv(m.termOf(c, x.Cap), isSigned(x.Cap.Type()), 64)
 		m.safety(c, "safe-make", And(BVSge(ln, BVLitI(0, 64)), BVSle(ln, cp)), x.Pos())
 		st.assume(And(BVSge(ln, BVLitI(0, 64)), BVSle(ln, cp)))
 		m.allocBound(c, ln, x.Pos())
